@@ -2,10 +2,11 @@
 (***************************************************************************)
 (* The state animator (core/src/animator.rs MappedTimelineAnimator).        *)
 (*                                                                          *)
-(* Configuration (CONSTANT-level, chosen by the instantiating module):       *)
-(*   States  - set of states                                                *)
-(*   Tls     - Tls[s] = <<>> for a state without timeline, else a non-empty *)
-(*             sequence of timeline cfgs (a merged timeline)                *)
+(* Configuration:                                                           *)
+(*   States  - set of states (CONSTANT)                                     *)
+(*   tls     - tls[s] = <<>> for a state without timeline, else a non-empty *)
+(*             sequence of timeline cfgs (a merged timeline); a variable    *)
+(*             fixed at construction so one run can cover many animators    *)
 (* State:                                                                   *)
 (*   cur     current_state                                                  *)
 (*   ticks   state_duration (integer ticks)                                 *)
@@ -19,13 +20,14 @@
 (***************************************************************************)
 EXTENDS Timeline
 
-CONSTANTS States, Tls, Defects
+CONSTANTS States, Defects
 
-VARIABLES cur, ticks, paused, ov, vals
-avars == <<cur, ticks, paused, ov, vals>>
+VARIABLES cur, ticks, paused, ov, vals,
+          tls      \* the configuration: tls[s] as above; never changes after construction
+avars == <<cur, ticks, paused, ov, vals, tls>>
 
-HasTl(s) == Tls[s] # <<>>
-Objs(s, o) == [i \in 1..Len(Tls[s]) |-> [cfg |-> Tls[s][i], ov |-> o]]
+HasTl(s) == tls[s] # <<>>
+Objs(s, o) == [i \in 1..Len(tls[s]) |-> [cfg |-> tls[s][i], ov |-> o]]
 One(S) == CHOOSE x \in S : TRUE
 
 \* update_current_values: overlay the (merged) timeline of s at time t onto v
@@ -37,15 +39,16 @@ Recompute(s, o, t, v) ==
 TotalOfState(s) == MTotal(Objs(s, NoOvAll))
 IsEnded == ~HasTl(cur) \/ F32Round(ticks) >= TotalOfState(cur)
 
-AInit(s0, v0) ==
+AInit(t0, s0, v0) ==
+  /\ tls = t0
   /\ cur = s0 /\ ticks = 0 /\ paused = <<>> /\ vals = v0
-  /\ ov = [s \in States |-> IF s = s0 /\ HasTl(s0) THEN StartWith(v0) ELSE NoOvAll]   \* blend_next_timeline
+  /\ ov = [s \in States |-> IF s = s0 /\ t0[s0] # <<>> THEN StartWith(v0) ELSE NoOvAll]   \* blend_next_timeline
 
 \* the timeline is evaluated at state_duration.as_secs_f32(): the exact clock rounded to f32
 Advance(dt) ==
   /\ ticks' = ticks + dt
   /\ vals' = Recompute(cur, ov[cur], F32Round(ticks + dt), vals)
-  /\ UNCHANGED <<cur, paused, ov>>
+  /\ UNCHANGED <<cur, paused, ov, tls>>
 
 SetState(s) ==
   IF s = cur THEN UNCHANGED avars                                    \* ignored
@@ -59,7 +62,7 @@ SetState(s) ==
                        ELSE IF HasTl(s) THEN <<>> ELSE paused
           /\ ov' = IF HasTl(s) THEN [ov EXCEPT ![s] = StartWith(vals)] ELSE ov   \* blend_next_timeline
           /\ ticks' = 0
-  /\ cur' = s
+  /\ cur' = s /\ tls' = tls
   /\ vals' = Recompute(s, ov'[s], F32Round(ticks'), vals)
 
 \* ---------------- properties ------------------------------------------------------
@@ -82,6 +85,6 @@ PauseRules ==
 \* C07: completion
 EndedStable == [][(IsEnded /\ cur' = cur) => (IsEnded' /\ vals' = vals)]_avars
 \* C08 in the animator: properties the current timeline does not animate keep their value
-AnimatedNow == UNION {Animated(Tls[cur][i]) : i \in 1..Len(Tls[cur])}
+AnimatedNow == UNION {Animated(tls[cur][i]) : i \in 1..Len(tls[cur])}
 KeepsOthers == [][cur' = cur => \A p \in Props : p \notin AnimatedNow => vals'[p] = vals[p]]_avars
 =============================================================================
